@@ -382,3 +382,5 @@ def check(ctx):
     ok = any(isinstance(x, ast.Compare) and "_tags" in ast.unparse(x.left) and isinstance(x.ops[0], ast.Eq) and ast.unparse(x.comparators[0]) == "tags"
              for x in walk_own(oam.node)) and any(isinstance(st, ast.Assign) and "'_attr': attr" in ast.unparse(st.value) for st in walk_own(oam.node))
     ctx.ob("C15.h", "alias identity = equal tags including the realigned attribute", ok, "", oam.where)
+    # ---------------- (j) hook register / deregister typestate behind every monitor (shared with C16.a)
+    ctx.import_clauses("C16", {"C16.a"}, "C15.j", minimum=4)
